@@ -250,7 +250,7 @@ pub fn generate(seed: u64, prop_name: &str) -> PoolScenario {
     }
     // C13 planted shape "a pooled transaction's time lock lies beyond the earliest commit position of a
     // SHORTER but heavier branch": one run in five of those without small limits
-    let timelock_shape = prop == "C13" && !c13_full && cfg.max_block_bytes >= 100_000 && Rng::new(seed ^ 0xC13_71AE).chance(1, 5);
+    let timelock_shape = prop == "C13" && !c13_full && cfg.max_block_bytes >= 100_000 && Rng::new(seed ^ 0xC13_71AE).chance(1, if prop_name == "C14" { 2 } else { 5 });
     if timelock_shape {
         let mut rp = Rng::new(seed ^ 0xC13_71AF);
         cfg.genesis_epoch_len = *rp.pick(&[8u64, 10]);
@@ -578,10 +578,26 @@ pub fn generate(seed: u64, prop_name: &str) -> PoolScenario {
         sk.push(POp::Quiesce);
         sk.push(POp::Submit { t: 0, remote: false });
         sk.push(POp::Quiesce);
-        sk.push(POp::Fork { back: 1 + n_epoch1, len: 0, seed: rp.below(1 << 40), quiet: true });
+        // variants (a stream of their own): the transaction is committed on A before B takes over (it
+        // comes back through the re-add of detached transactions, judged again at B's tip); the
+        // submitter tries again after the reorganisation (judged again with its first verdict cached)
+        let mut rv = Rng::new(seed ^ 0xC13_71B1);
+        let mut mined_on_a = 0;
+        if rv.chance(1, 2) {
+            mined_on_a = cfg.w_close + 2;
+            for _ in 0..mined_on_a {
+                sk.push(POp::Mine);
+                sk.push(POp::Quiesce);
+            }
+        }
+        sk.push(POp::Fork { back: 1 + n_epoch1 + mined_on_a, len: 0, seed: rp.below(1 << 40), quiet: true });
         if rp.chance(1, 3) {
             sk.push(POp::Take);
             sk.push(POp::Poll { k: rp.idx(8) });
+        }
+        if rv.chance(1, 2) {
+            sk.push(POp::Quiesce);
+            sk.push(POp::Submit { t: 0, remote: rv.chance(1, 3) });
         }
         for _ in 0..4 {
             sk.push(POp::Quiesce);
